@@ -56,6 +56,9 @@ func GenesisFor(profile string, r *rand.Rand) GenesisCfg {
 			Fee:       sdkmath.NewInt(pick(r, []int64{0, 1, 10, 100})),
 		},
 	}
+	if cfg.Bet.Constraints.Fee.GTE(cfg.Bet.Constraints.MinAmount) {
+		cfg.Bet.Constraints.Fee = cfg.Bet.Constraints.MinAmount.SubRaw(1)
+	}
 	cfg.Orderbook = obtypes.Params{
 		MaxOrderBookParticipations: pick(r, []uint64{2, 3, 5, 100}),
 		BatchSettlementCount:       pick(r, []uint64{1, 2, 5, 1000}),
